@@ -7,6 +7,12 @@ VERIF = os.path.dirname(os.path.dirname(os.path.abspath(__file__)))
 
 # id -> (technique, level text, level note, design ref)   -- only checks that exist under mc/checks are claimed
 CHECKS = {
+    "C15": ("bounded exhaustive enumeration (deviation-bounded, DEV mode) against an integer-arithmetic reference formatter",
+            "All 10^6 microsecond values x 3 precisions x 2 constraints on one base date, a structured product of 13 years x calendar/time boundaries x 9 tzinfo kinds x microsecond digit patterns x 2 entry forms, accepted string spellings (0-9 fraction digits, case variants) and timestamp properties of real objects are executed on format_datetime/parse_into_datetime and compared with an independent integer formatter; fixpoint and order clauses checked on every produced text. Covers the digit/precision dimension completely and the calendar dimension at its boundaries.",
+            "trusted: mc/ref/tsfmt.py (days-from-civil integer algorithm, self-tested against datetime); years/dates covered at boundaries only", "DESIGN.md §3 C15"),
+    "C16": ("bounded exhaustive enumeration (DEV mode) against an independent RFC 8785 implementation",
+            "Every binary exponent x 200 (thorough 2000) mantissa patterns x sign, +-2 ulp around every power of ten, all d.dd(d) x 10^k, integer boundaries, the code-point alphabet as values and keys, every insertion order of <=4 of 8 keys, and all JSON values of depth <=3 are canonicalized by the real code and compared with mc/ref/jcs.py; parse-back, fixpoint, UTF-8 form, order independence and NaN/inf refusal are asserted per case.",
+            "trusted: mc/ref/jcs.py (passes the RFC 8785 Appendix B vectors); shortest round-trip digits come from CPython repr(float) on both sides (layout is independent)", "DESIGN.md §3 C16"),
     "C20": ("complete enumeration of the conversion domain against frozen specification tables",
             "Every integer -200..300 and every label/near-miss label of the five scales is executed on the real functions and compared with a frozen copy of STIX 2.1 Appendix A plus table-independent monotonicity/round-trip clauses; the domain named by the property (0..100, all labels) is covered completely.",
             "trusted: frozen range tables transcribed from the specification (mc/checks/c20_confidence.py)", "DESIGN.md §3 C20"),
